@@ -527,13 +527,30 @@ def run_shard(spec, acc, ctx):
         return
     if spec["part"] == "sorted":
         first = True
+        # every third case runs with CLUSTERED labels: up to forty PRF outputs / os.urandom draws of the case share their
+        # leading four bytes (instrument.Steer), so label order is decided further back in the label
+        from vlib.instrument import Steer
+        steer = Steer(rng, p=0.6, cap=40, cluster=1.0)
+        n_sorted = 0
         # PiBas has no configured identifier size: identifiers of mixed lengths (ciphertexts of several widths) are
         # valid input and the table must be in label order all the same
         gen.MIXED_ID_SIZES = scheme == "CJJ14.PiBas"
         for cid, cfg, cls, db, info in sse.iter_cases(spec, ctx, scales=[6, 16, 40],
                                                       classes=["many-singletons", "block-edge", "zipf", "pow2-edge",
                                                                "shared-id", "one-heavy"]):
-            if run_sorted_case(scheme, cid, cfg, cls, db, acc, rng):
+            n_sorted += 1
+            # (only where every label is at least 16 bytes long: twelve random bytes stay behind the common word)
+            label_len = min([v for k, v in cfg.items() if k in ("param_l", "param_l_prime", "prf_f_output_length")
+                             and isinstance(v, int)] or [32])
+            if n_sorted % 3 == 0 and label_len >= 16:
+                steer.arm()
+                with steer:
+                    ok_ = run_sorted_case(scheme, cid + ":clustered-labels", cfg, cls, db, acc, rng)
+                acc.count("sorted.cases_with_clustered_labels")
+                acc.count("sorted.values_forced_into_a_cluster", len(steer.steered_values))
+            else:
+                ok_ = run_sorted_case(scheme, cid, cfg, cls, db, acc, rng)
+            if ok_:
                 acc.add("distinct", sse.case_fp(scheme, cid, db))
             acc.count("cases")
             if first:
@@ -570,6 +587,15 @@ def replay(case, acc, ctx):
     if case.get("db_class") == "placement":
         run_placement_case(scheme, case["cfg_id"], case["cfg"], case["db"], acc, ctx.rng,
                            forked=("twins" if case.get("forked") == "twins" else bool(case.get("forked"))))
+    elif "clustered-labels" in str(case.get("cfg_id", "")):
+        from vlib.instrument import Steer
+        steer = Steer(ctx.rng, p=0.6, cap=40, cluster=1.0)
+        for _ in range(40):
+            steer.arm()
+            with steer:
+                run_sorted_case(scheme, case["cfg_id"], case["cfg"], case.get("db_class", "?"), case["db"], acc, ctx.rng)
+            if acc.n_violations:
+                break
     else:
         run_sorted_case(scheme, case["cfg_id"], case["cfg"], case.get("db_class", "?"), case["db"], acc, ctx.rng)
     acc.count("replayed")
@@ -579,6 +605,8 @@ def finish(m, tier, seed):
     c = m["counters"]
     inc = []
     per = {}
+    if c.get("sorted.values_forced_into_a_cluster", 0) < 2000:
+        inc.append("fewer than 2000 labels were forced into clusters with a common leading part")
     if c.get("labels_located_in_serialized_bytes", 0) < 5000:
         inc.append("fewer than 5000 labels were located in serialized indexes")
     if c.get("placement.twin_pairs", 0) < 4:
@@ -638,6 +666,8 @@ def finish(m, tier, seed):
         "slot_map_comparisons": c.get("slot_map_comparisons", 0),
         "keywords_with_different_slots": c.get("keywords_with_different_slots", 0),
         "setup_failed": c.get("setup_failed", 0),
+        "sorted_cases_with_clustered_labels": c.get("sorted.cases_with_clustered_labels", 0),
+        "labels_forced_into_a_cluster": c.get("sorted.values_forced_into_a_cluster", 0),
         "tables_of_restored_indexes_checked": c.get("restored_tables_checked", 0),
         "labels_located_in_serialized_bytes": c.get("labels_located_in_serialized_bytes", 0),
         "placement_pairs_built_in_forked_workers": c.get("placement.forked_pairs", 0),
